@@ -46,10 +46,9 @@ P = {
  'C19': 'CORE VTEXT',
  'C20': 'CORE VTEXT FLOW HELP',
 }
-# C03 (termination, no crash): only the safety/termination/subset/precondition obligations, plus the functional clauses
-# termination arguments rest on
-C03_CLAUSES = [r'.*/(safety|decreases|subset|pre|panic-post|inv-init|inv-pres)/.*', r'matcher\.\(\*options\)\.try/post/.*', r'matcher\.\(\*opt\)\.Match/post/.*',
-               r'fsm\.(simplify|\(\*State\)\.simplifySelf)/.*', r'.*/post/(progress|error)$', r'lexer\.is.*/post/.*']
+# C03 (termination, no crash) used to keep only the safety/termination/precondition obligations; rounds 5 and 6 of the seeded
+# changes showed that the functional clauses are what the safety obligations of the callers rest on (a command whose fsm
+# was never built, a version option that is nil): C03 now takes every obligation of its cone like the others.
 m = json.load(open('/verif/obligations.map.json'))
 for pid, groups in P.items():
     fs = []
@@ -58,8 +57,6 @@ for pid, groups in P.items():
     m[pid]['funcs'] = fs
     m[pid].pop('clauses', None)
     ex = [] if pid == 'C06' else [r'.*default-kept-on-failure.*']
-    if pid == 'C03':
-        m[pid]['clauses'] = C03_CLAUSES
     m[pid]['exclude'] = ex
     m[pid]['groups'] = groups
 json.dump(m, open('/verif/obligations.map.json', 'w'), indent=1)
